@@ -163,8 +163,10 @@ func (p *pairing) Step(c *StepCtx) {
 	}
 	if sym.Action != "" {
 		if sym.Action == "panic" && c.Ev.Val == 1 {
-			for k := range p.pair {
-				p.panicHeld |= 1 << uint(k)
+			for k, q := range p.pair {
+				if q[0] == c.Pre.Ch { // panic silences the CURRENT channel only: a key sounding elsewhere still owes its Note Off
+					p.panicHeld |= 1 << uint(k)
+				}
 			}
 			return
 		}
